@@ -239,6 +239,10 @@ def deductive(ctx):
     from contracts import split_validation as TS
 
     summarize(ctx, verify(ctx, TS.contract()))
+    # Task.combine: accepted only if every own combiner field is a field of the task; stored on a copy
+    from contracts import combine_validation as CV
+
+    summarize(ctx, verify(ctx, CV.contract("property:C05")))
 
 
 def run(ctx):
